@@ -1122,7 +1122,7 @@ def layout_case(cx: Ctx, usable, stored=None):
             for key, t, v in opts:
                 md += md_lines_for(rng, key, t, v, seps.get(key, "="))
             md.append(rng.choice(["---", "..."]))
-            own = rng.choice([None, None, None, "<dir>", "noExtra", "noFord", "noFord2", "emptyfile"])
+            own = rng.choice([None, None, None, None, "<dir>", "noExtra", "noFord", "noFord2", "emptyfile", "invalid"])
             manifests[proj_rel] = None if own is None else distractor_text(cx, own, usable)[0]
             own_kind = "none" if own is None else own
         else:
